@@ -395,11 +395,56 @@ def rule_const(prog, rep):
         rep.finding("C05.CONST", val.name, "variable-under-const", "value() can parse a Variable under Constness::Const without reporting an error", val.loc())
 
 
+RESERVED = [
+    # production, node kind it builds, the words the grammar excludes (`Name but not ..`)
+    ("EnumValue", r"^apollo_parser::parser::grammar::value::enum_value$", ["true", "false", "null"]),
+    ("FragmentName", r"^apollo_parser::parser::grammar::fragment::fragment_name$", ["on"]),
+]
+
+
+def rule_reserved(prog, rep):
+    """C05.RESERVED: the two `Name but not ...` productions.  In the function that builds the node,
+    for every excluded word there is a comparison of the current token's text with that word, and
+    on its true edge every path to the end reports an error.  The exclusion must be in the
+    production's own function: other callers (enum value *definitions* call enum_value directly)
+    do not go through value()'s keyword dispatch."""
+    rep.floor("C05.RESERVED", 4)
+    from ..flow import branch_on_call, must_pass_cp
+    for prod, pat, words in RESERVED:
+        f = prog.inline(prog.fn(pat), keep=r"Parser::<'input>::|grammar::name::name$")
+        errs = [c.block for c in f.live_calls() if re.search(r"Parser::<'input>::(err|err_and_pop|err_at_token)$", c.name)]
+        for w in words:
+            cmps = []
+            for c in f.live_calls():
+                if not re.search(r"PartialEq.*::eq$", c.name) or len(c.args) != 2:
+                    continue
+                syms = [f.sym(a) for a in c.args]
+                if any(re.search(r'const:&?"%s"' % re.escape(w), x) for x in syms):
+                    cmps.append(c)
+            ok = bool(cmps)
+            for c in cmps:
+                br = branch_on_call(f, c)
+                if br is None:
+                    ok = False
+                    continue
+                t_true, _t_false, _sw = br
+                if not must_pass_cp(f, [t_true], f.return_blocks(), errs)[0]:
+                    ok = False
+            rep.obligation(ok)
+            if ok:
+                rep.instance("C05.RESERVED", "%s: the word `%s` is compared with the token text and reported as an error" % (prod, w))
+            else:
+                rep.finding("C05.RESERVED", f.name, "%s:%s" % (prod, w),
+                            "%s is `Name but not %s`, but %s %s: `%s` is accepted as %s wherever this production is used directly" % (
+                                prod, " / ".join(words), f.name.split("::")[-1], "never compares the token text with `%s`" % w if not cmps else "can pass the comparison with `%s` without reporting an error" % w, w, prod), f.loc())
+
+
 def run(prog, rep):
     rule_dispatch(prog, rep)
     rule_locations(prog, rep)
     rule_nonempty(prog, rep)
     rule_const(prog, rep)
+    rule_reserved(prog, rep)
     from . import parser_produce
 
     parser_produce.run(prog, rep)
